@@ -24,6 +24,8 @@ struct Environment {
 }
 
 fn main() {
+    // verification hooks are compiled only under `--cfg substrate_fixed_verif`
+    println!("cargo:rustc-check-cfg=cfg(substrate_fixed_verif)");
     let env = Environment {
         out_dir: PathBuf::from(cargo_env("OUT_DIR")),
         rustc: cargo_env("RUSTC"),
